@@ -137,6 +137,23 @@ def check(prog, res, tier):
                     fails.append(definite(f'{n} records are written per CSV row', head.node))
             if p.interp.user.get('write_many'):
                 seen_w['n'] += mode == 'inv'
+            # what is written for a cell is the cell itself: a value derived from it (strip, upper, replace, a slice ...) does
+            # not come back as it was given
+            recs = [w[1] for w in p.interp.user.get('writes', [])]
+            for w in p.interp.user.get('write_many', []):
+                r = it_resolve(p, w[1])
+                recs.append(getattr(r, 'elem', None) if isinstance(r, (IterV, ListV)) else None)
+            for rec in recs:
+                rec = it_resolve(p, rec) if rec is not None else None
+                comp = getattr(rec, 'comp', None)
+                if not (isinstance(rec, DictV) and comp is not None and isinstance(comp[0], TupleV) and len(comp[0].items) == 2):
+                    continue
+                val = it_resolve(p, comp[0].items[1])
+                o = getattr(val, 'origin', None)
+                if isinstance(o, tuple) and o and o[0] == 'method' and len(o) >= 3 and o[2] in (
+                        'strip', 'lstrip', 'rstrip', 'upper', 'lower', 'title', 'replace', 'zfill', 'ljust', 'rjust', 'casefold', 'capitalize'):
+                    fails.append(definite(f'the value written for a CSV cell is cell.{o[2]}(...), not the cell: blanks (or case) that are '
+                                          f'data do not come back', firm=True))
             return fails
         res.add(require_instances(
             runs.judge('C20.a', 'mci_csv_to_ipm writes exactly one record per CSV row', func_where(fi), 'for row in reader: writer.write(record)',
